@@ -15,6 +15,7 @@ CONSTANTS
   AfterHeight = 100
   LockNames = {"a", "b"}
   ConnectChoices <- RealConnect
+  SwapChoices <- RealSwap
   ReorgChoices <- RealReorg
   MaxTip = 700
   MaxSteps = 20
@@ -23,6 +24,6 @@ INIT ScriptInit
 NEXT ScriptNext
 VIEW ScriptView
 ACTION_CONSTRAINT ScriptEmit
-INVARIANTS FileInfoExact CursorAlive RecentHaveData
+INVARIANTS FileInfoExact FileInfoCovers CursorAlive RecentHaveData
 PROPERTIES PropRecentX PropLockedX PropBuffer PropAuto
 CHECK_DEADLOCK FALSE
